@@ -696,6 +696,11 @@ func GenCMap(t *tape.Tape, f *sfnt.Font) map[rune]glyph.ID {
 			m[code] = glyph.ID(gid) // second code for the same glyph
 		}
 	}
+	if t.Chance(1, 5) && n > 1 {
+		// U+0000 is a character like any other (Go Regular maps it), but it
+		// is also the zero value of every rune-keyed cache or table
+		m[0] = glyph.ID(1 + t.Draw(n-1))
+	}
 	if t.Chance(1, 2) && n > 40 {
 		// make sure some common letters are mapped
 		for i, r := range "HxfilAB " {
